@@ -4,10 +4,14 @@
            decided for *all* strings (z3 regular-language equivalence, both inclusions).
 (b) xh   : RpcServer._check_protocol_version (real bytecode, re-globalised so that
            parse_version is a contract stub "symbolic triple or ValueError", sound given (a)):
-           returns <=> client parsed and major,minor equal; otherwise ProtocolVersionError with
-           the right kind, both versions and the right direction text.
+           returns <=> client parsed and major,minor equal; otherwise a protocol_version_mismatch
+           error naming both versions and (for a genuine difference) a recognisable side to upgrade —
+           the wording is read loosely, unrecognised wording is a harness model error, only a clearly
+           opposite direction is a violation.  Replay: un-stubbed gate + real parser on rendered versions.
 (c) xh   : parse_version value mapping on rendered triples, and the real gate (no stubs) on
            short symbolic client strings against a fixed server version.
+(d) xh   : wiring table on the real stack (serve_one and the HTTP app): who is checked at all
+           (__describe__ exempt, undeclared service never checks, HTTP 400); solver case split, concrete cells.
 """
 
 from __future__ import annotations
@@ -25,11 +29,12 @@ from vgi_rpc.rpc import _server as srv
 PROPERTY = "C09"
 ENCODED = [md.parse_version, srv.RpcServer._check_protocol_version]
 BOUNDS = "rx: all strings over code points 0..0x2FFFF (unbounded length); gate: unbounded non-negative int triples; real gate: client strings len<=%d" % pick(5, 7)
+BOUNDS += ("; wiring: service declaring 1.2.0 / none x {unary, producer stream, __describe__} x 9 client declarations x {socket serve_one, HTTP app}, "
+           "each cell on the real stack (case split, concrete runs)")
 OUTSIDE = (
-    "the wiring of the gate into the three dispatch sites (serve_one, HTTP unary, HTTP stream init): that __describe__ is exempt, "
-    "that a service declaring no version never calls the gate, and socket/HTTP parity incl. the HTTP 400 mapping are NOT decided "
-    "here (C04 exercises refusal on the socket path for a declared service only); Arrow transport of the metadata value; "
-    "code points above 0x2FFFF; the wording of the refusal beyond naming both versions and a recognisable side to upgrade"
+    "the wiring of the gate (which calls are checked at all, __describe__ exempt, undeclared service never checks, HTTP 400) is decided only on the "
+    "finite table of item gate_wiring_table (one declared version, 9 client declarations; non-UTF-8 values and exchange streams not in the table); "
+    "Arrow transport of the metadata value; code points above 0x2FFFF; the wording of the refusal beyond naming both versions and a recognisable side to upgrade"
 )
 ASSUMPTIONS = [
     "parse_version stub in (b) = 'returns any triple of non-negative ints or raises ValueError' — justified by (a)+(c)",
@@ -430,11 +435,12 @@ def _sig_real_gate(abc: dict) -> str:
     return "C09:gate:crashes"
 
 
-@cond(q=90, t=400, encoded=[srv.RpcServer._check_protocol_version, md.parse_version], bound="client = a.b.c with a,b,c any strings len<=%d, server 1.2.0" % pick(1, 2),
+@cond(q=90, t=600, encoded=[srv.RpcServer._check_protocol_version, md.parse_version],
+      bound="client = a.b.c with a,b any strings len<=1 and c any string len<=%d, server 1.2.0 (three components of length 2 did not exhaust in 900 s CPU; longer single components: real_gate_one_free_component)" % pick(1, 2),
       replay=_replay_real_gate, signature=lambda args, conc: _sig_real_gate(args))
 def real_gate_templated(a: str, b: str, c: str) -> bool:
     """
-    pre: len(a) <= _L and len(b) <= _L and len(c) <= _L
+    pre: len(a) <= 1 and len(b) <= 1 and len(c) <= _L
     post: _
     """
     client = a + "." + b + "." + c
@@ -551,3 +557,197 @@ def real_gate_patch_grid(n: int, i0: int, i1: int, i2: int) -> bool:
         passed = False
     canonical = len(patch) >= 1 and all(ch in "0123456789" for ch in patch) and (len(patch) == 1 or patch[0] != "0")
     return passed == canonical
+
+
+# ---------------------------------------------------------------------------
+# (d) wiring of the gate into the dispatch sites: who is checked at all
+# ---------------------------------------------------------------------------
+# "every call except introspection", "a service declaring no version never checks", "identically on socket
+# transports and HTTP (400)".  The real serve_one and the real falcon app, un-stubbed, on real request bytes; the
+# solver only splits the finite table (service declares / method kind / what the client declared / transport) and
+# every cell runs concretely outside the tracer (nothing symbolic flows into the stack).
+
+from dataclasses import dataclass as _dataclass  # noqa: E402
+from io import BytesIO as _BytesIO  # noqa: E402
+from typing import ClassVar as _ClassVar, Protocol as _Protocol  # noqa: E402
+
+import pyarrow as _pa  # noqa: E402
+from pyarrow import ipc as _ipc  # noqa: E402
+
+from vgi_rpc.rpc import ProducerState as _ProducerState, Stream as _Stream  # noqa: E402
+from vgi_rpc.rpc import _wire as _wire  # noqa: E402
+from vgi_rpc.rpc._common import _EMPTY_SCHEMA, RpcError as _RpcError  # noqa: E402
+from vgi_rpc.utils import IpcValidation as _IpcValidation, ValidatedReader as _ValidatedReader, empty_batch as _empty_batch  # noqa: E402
+
+_W: dict = {"calls": 0}
+_WSCHEMA = _pa.schema([_pa.field("v", _pa.int64())])
+
+
+@_dataclass
+class _WProd(_ProducerState):
+    def produce(self, out, ctx) -> None:  # type: ignore[no-untyped-def]
+        out.finish()
+
+
+class _VSvc(_Protocol):
+    protocol_version: _ClassVar[str] = "1.2.0"
+
+    def add(self, a: int) -> int: ...
+
+    def gen(self) -> _Stream[_WProd]: ...
+
+
+class _NSvc(_Protocol):
+    def add(self, a: int) -> int: ...
+
+    def gen(self) -> _Stream[_WProd]: ...
+
+
+class _WImpl:
+    def add(self, a: int) -> int:
+        _W["calls"] += 1
+        return a + 1
+
+    def gen(self) -> _Stream[_WProd]:
+        _W["calls"] += 1
+        return _Stream(output_schema=_WSCHEMA, state=_WProd())
+
+
+# what the client declares: (label, metadata value or None, admitted by a server declaring 1.2.0, expected direction)
+_CLIENT_KINDS = (
+    ("absent", None, False, "absent"),
+    ("same", "1.2.0", True, ""),
+    ("other-patch", "1.2.9", True, ""),
+    ("older", "1.1.7", False, "client_old"),
+    ("newer", "2.0.0", False, "server_old"),
+    ("prerelease", "1.2.0-rc1", False, "malformed"),
+    ("leading-zero", "1.02.0", False, "malformed"),
+    ("leading-zero-patch", "1.2.03", False, "malformed"),
+    ("whitespace", "1.2.0 ", False, "malformed"),
+)
+_METHODS = ("add", "gen", "__describe__")
+
+
+def _wiring_request(method: str, version: str | None, with_ticks: bool) -> bytes:
+    from vgi_rpc.rpc import rpc_methods
+
+    b = _BytesIO()
+    if method == "__describe__":
+        _wire._write_request(b, method, _EMPTY_SCHEMA, {}, protocol_version=version)
+    else:
+        info = rpc_methods(_VSvc)[method]
+        _wire._write_request(b, method, info.params_schema, {"a": 1} if method == "add" else {}, protocol_version=version)
+    if with_ticks and method == "gen":
+        with _ipc.new_stream(b, _EMPTY_SCHEMA) as w:  # the producer's tick stream that follows the request on a socket
+            w.write_batch(_empty_batch(_EMPTY_SCHEMA))
+    return b.getvalue()
+
+
+def _wiring_error(body: bytes):  # type: ignore[no-untyped-def]
+    """The RpcError a client reading this response stream would get, or None."""
+    try:
+        rd = _ValidatedReader(_ipc.open_stream(_BytesIO(body)), _IpcValidation.FULL)
+        while True:
+            _wire._read_batch_with_log_check(rd, None)
+    except StopIteration:
+        return None
+    except _RpcError as e:
+        return e
+
+
+class _WTransport:
+    def __init__(self, request: bytes) -> None:
+        self.reader = _BytesIO(request)
+        self.writer = _BytesIO()
+
+    def close(self) -> None:
+        pass
+
+
+_W_SERVERS: dict = {}
+
+
+def _wiring_cell(declared: bool, mi: int, ki: int, http: bool) -> str | None:
+    """One cell on real code; returns a description of how the property is broken, or None."""
+    method = _METHODS[mi]
+    label, version, admitted, direction = _CLIENT_KINDS[ki]
+    key = (declared, http)
+    if key not in _W_SERVERS:
+        server = srv.RpcServer(_VSvc if declared else _NSvc, _WImpl(), server_id="srv", enable_describe=True)
+        if http:
+            from vgi_rpc.http._testing import make_sync_client
+
+            _W_SERVERS[key] = make_sync_client(server, token_key=b"k" * 32, compression_level=None)
+        else:
+            _W_SERVERS[key] = server
+    _W["calls"] = 0
+    status = None
+    if http:
+        url = "/" + method + ("/init" if method == "gen" else "")
+        r = _W_SERVERS[key].post(url, content=_wiring_request(method, version, False), headers={"Content-Type": "application/vnd.apache.arrow.stream"})
+        status, body = r.status_code, r.content
+    else:
+        tr = _WTransport(_wiring_request(method, version, True))
+        _W_SERVERS[key].serve_one(tr)
+        body = tr.writer.getvalue()
+    err = _wiring_error(body)
+    where = "%s %s, client %s (%r), service %s a version" % ("HTTP" if http else "socket", method, label, version, "declaring" if declared else "not declaring")
+    must_refuse = declared and method != "__describe__" and not admitted
+    if not must_refuse:
+        if err is not None:
+            return f"{where}: refused with {err.error_type} (kind {err.error_kind!r}) — this call must be dispatched"
+        if method != "__describe__" and _W["calls"] != 1:
+            return f"{where}: the method ran {_W['calls']} times"
+        return None
+    if _W["calls"]:
+        return f"{where}: the method was dispatched"
+    if err is None:
+        return f"{where}: no error reached the client"
+    if err.error_kind != "protocol_version_mismatch":
+        return f"{where}: refused with error_kind {err.error_kind!r} ({err.error_type}), not protocol_version_mismatch"
+    text = err.error_message
+    if "1.2.0" not in text or (version is not None and version not in text):
+        return f"{where}: the refusal does not name both versions: {text[-200:]!r}"
+    if direction in ("client_old", "server_old"):
+        votes = _direction(text)
+        if len(votes) == 1 and votes != {direction}:
+            return f"{where}: the refusal tells the wrong side to upgrade"
+    if http and status != 400:
+        return f"{where}: HTTP status {status}, not 400"
+    return None
+
+
+def _replay_wiring(args: dict) -> str | None:
+    return _wiring_cell(bool(args["declared"]), args["method"], args["kind"], bool(args["http"]))
+
+
+@cond(q=60, t=120, encoded=[srv.RpcServer.serve_one, srv.RpcServer._check_protocol_version], replay=_replay_wiring,
+      bound="service declaring 1.2.0 / none x {unary, producer stream, __describe__} x %d client declarations (absent, same, other patch, older, newer, 4 malformed) x {socket serve_one, HTTP app} "
+            "(solver case split over the table; each cell runs the real stack concretely)" % len(_CLIENT_KINDS),
+      signature=lambda a, c: "C09:wiring:%s:%s:%s:%s" % ("http" if a["http"] else "socket", _METHODS[a["method"]], "declared" if a["declared"] else "undeclared", _CLIENT_KINDS[a["kind"]][0]))
+def gate_wiring_table(declared: bool, method: int, kind: int, http: bool) -> bool:
+    """
+    pre: 0 <= method <= 2 and 0 <= kind <= 8
+    post: _
+    """
+    mi = _pick_index(method, len(_METHODS))
+    ki = _pick_index(kind, len(_CLIENT_KINDS))
+    d, h = (True if declared else False), (True if http else False)
+    try:
+        from crosshair.tracers import NoTracing, is_tracing
+
+        tracing = is_tracing()
+    except ImportError:  # pragma: no cover
+        tracing = False
+    if tracing:
+        with NoTracing():
+            return _wiring_cell(d, mi, ki, h) is None
+    return _wiring_cell(d, mi, ki, h) is None
+
+
+def _pick_index(i: int, n: int) -> int:
+    # branch a symbolic index to a concrete one
+    for k in range(n):
+        if i == k:
+            return k
+    raise HarnessModelError("index outside the table")
